@@ -30,10 +30,10 @@ EXPLANATION = ('(a) mask closures called with bit-vector row/column, compared wi
                'N1/N2/dark count via the if-converted run-length state machine, N4 as a Float64 lemma on the expression taken from the source.')
 BOUNDS = {'quick': '(a) all i, j in 0..176; (b) all 44 sizes x rotating mask + all masks for sizes <= 25; (c) unbounded scores, sizes M1-M4, 21, 45; '
                    '(d) Micro: 4 sizes all free; N3: one free row of 21 modules (and 11 with both edges); N1/N2: n x n all free n = 3..5, one free row/column window of <= 17 modules in '
-                   'real 21/25/45 symbols, a free 2 x 10 block of two adjacent rows for N2; N4: Float64 lemma for 6 sizes',
+                   'real 21/25/45 symbols, a free 2 x 10 block of two adjacent rows for N2; N4: Float64 lemma for 6 sizes; (e) _encode order / sequence masks; (f) segno.make(micro=True) with automatic mask on 6 content shapes of 1-5 symbolic bytes (thorough: + 6 bytes M4-Q, 9 bytes M4-L): mask in the symbol == first mask with the maximal ISO score',
           'thorough': '(b) all 44 sizes x all masks; (d) N3 row of 25; N1/N2: n = 6 all free, windows of 21 modules at start/middle/end of 5 lines in 6 sizes, 2 x 12 blocks for N2; N4: all 40 sizes'}
 OUTSIDE = ('N1 with more than 21 free modules in a line or more than one free line above n = 6; N2 with more than a 2 x 12 block of free modules (measured: 2 x 10 1.3 s, 2 x 12 21 s, two whole rows of 21 do not finish); N3 rows longer than 25; '
-           'automatic selection is never run end-to-end on a full symbol with symbolic data: the statement is composed from (b)+(c)+(d)')
+           'automatic selection end-to-end on symbolic content is decided for Micro symbols only (f: 6 (8) content shapes, all content bytes); for QR symbols the statement is composed from (b)+(c)+(d)')
 STUBS = ['(c) evaluate_mask / evaluate_micro_mask -> fresh symbolic score per call', '(d) n3_pattern_occurrences stubbed to 0 while N1/N2 are checked (it is checked on its own)',
          'float() of the dark count modelled in exact rational arithmetic inside mask_scores; the Float64 lemma shows float == rational floor for every count']
 ASSUMPTIONS = ['ISO penalty rules as written in /verif/props/c06.py (declarative oracles)', 'z3 soundness (BV, LIA, FP)']
@@ -82,7 +82,10 @@ def jobs(tier, seed):
     for n in n4sizes:
         out.append({'name': f'd:n4:{n}', 'kind': 'n4', 'n': n, 'cost': 30})
     out.append({'name': 'd:evaluate_mask-sum', 'kind': 'sum', 'cost': 5})
-    for n, kw in ((1, dict(mode='numeric')), (3, dict(mode='numeric')), (5, dict(mode='numeric')), (3, dict(mode='alphanumeric')), (4, dict(mode='byte')), (9, dict(mode='byte', error='L')), (6, dict(mode='byte', error='Q')), (2, {})):
+    e2e = [(1, dict(mode='numeric')), (3, dict(mode='numeric')), (5, dict(mode='numeric')), (3, dict(mode='alphanumeric')), (4, dict(mode='byte')), (2, {})]
+    if tier == 'thorough':      # measured: 463 s and 794 s
+        e2e += [(6, dict(mode='byte', error='Q')), (9, dict(mode='byte', error='L'))]
+    for n, kw in e2e:
         out.append({'name': f'f:micro-automatic-mask-end-to-end:n={n}:{kw}', 'kind': 'e2e', 'n': n, 'kw': kw, 'cost': 40})
     out.append({'name': 'e:sequence-masks', 'kind': 'seqmask', 'cost': 10})
     for v in (T.M1, T.M3, 1, 6, 7, 20, 40):
